@@ -2,7 +2,7 @@
    Django's Context layer stack, render ids and component_context_cache), deepening C01 / C03 / C05, which are decided
    against the lexically scoped reference renderer S (Core/Sem.v).  Proofs in Core/MechProofs.v.
    Every run also compares M with the implementation and M with S on generated programs (harness/c01m.py). *)
-From DJC Require Import Lib.Base Core.Syntax Core.Sem Core.Mech Core.MechProofs Core.MechDjango Core.MechIsoProv.
+From DJC Require Import Lib.Base Core.Syntax Core.Sem Core.Mech Core.MechProofs Core.MechDjango Core.MechIsoProv Core.MechPass.
 From DJC Require Gen.C01M.
 From Coq Require Import String.
 Local Open Scope string_scope.
@@ -102,7 +102,8 @@ Print Assumptions unfilled_slot_renders_own_default_mech.
    per template.
    _partial - NOT covered by the proof (covered by the per-run comparison M vs S and M vs implementation only):
    django mode (see mech_refines_sem_django_partial below); {% provide %} / inject (see
-   mech_refines_sem_isolated_provide_partial below); {% for %}; the default= alias ({{ default }} SlotRef); slot tags and is_filled
+   mech_refines_sem_isolated_provide_partial below); pass-through slots (see mech_refines_sem_isolated_passthrough_partial
+   below); {% for %}; the default= alias ({{ default }} SlotRef); slot tags and is_filled
    tests written inside the body of a component tag (pass-through slots). *)
 Theorem mech_refines_sem_isolated_partial : forall p fuel,
   wf_prog p = true -> mout_of (mrender_prog fuel p) = embed (render_prog fuel p).
@@ -136,6 +137,20 @@ Theorem mech_refines_sem_isolated_provide_partial : forall p fuel,
 Proof. exact mech_refines_sem_isolated_provide_lemma. Qed.
 Print Assumptions mech_refines_sem_isolated_provide_partial.
 
+(* Isolated mode, the fragment WIDENED by PASS-THROUGH SLOTS (wf_prog_pass = wf_prog, except that slot tags - named /
+   default / required, with default content and slot data - and component_vars.is_filled reads may also be written inside
+   the body of a component tag: fill content, implicit default content, also between tag and fill where they render
+   nothing; the `default`-flagged slot tags written anywhere in one template, tag bodies included, bear one name).
+   Such a slot belongs to the instance whose template contains the component tag (S: the closure's owner); M finds that
+   instance's id under _DJC_COMPONENT_CTX of the outer Context snapshot the fill content is rendered on, and its fills in
+   component_context_cache under that id.  Any nesting depth (a passed-through slot filled by content that passes a slot
+   of the next enclosing instance through, ...).  Proof: ghost map render id -> S instance (Core/MechPass.v).
+   _partial: for / provide / default= alias are not covered (provide: see the theorem above, not combined). *)
+Theorem mech_refines_sem_isolated_passthrough_partial : forall p fuel,
+  wf_prog_pass p = true -> mout_of (mrender_prog fuel p) = embed (render_prog fuel p).
+Proof. exact mech_refines_sem_isolated_passthrough_lemma. Qed.
+Print Assumptions mech_refines_sem_isolated_passthrough_partial.
+
 (* ---------- non-vacuity ---------- *)
 (* a program of the fragment: nested components, a slot nested in another slot's default, a required slot, the default
    flag, slot data read through a data= alias, a with-bound dynamically named fill, a conditional fill, an implicit
@@ -167,6 +182,39 @@ Example refinement_premise_satisfiable :
   wf_prog ex_prog = true /\
   mout_of (mrender_prog 30 ex_prog) = MOk (s2n "P:{<Vfill:VaV<deepA-default[implicit]False>True>V}").
 Proof. vm_compute. split; reflexivity. Qed.
+
+(* pass-through slots: component mid fills leaf's slot with content that contains mid's OWN slot "t" (default-flagged,
+   slot data taken from leaf's slot data, default content with a nested slot "u") and reads is_filled.u; a second leaf tag
+   has an implicit body with mid's required slot "u".  The page fills mid's slots: all of them / only "u" / none
+   (-> the required passed-through slot raises).  The first program is outside wf_prog. *)
+Definition ex_leaf : cdef :=
+  {| c_tpl := [TText (s2n "["); TSlot (s2n "s") true false [(s2n "k", EVar (s2n "cd"))] [TText (s2n "leaf-default")]; TText (s2n "]")];
+     c_data := [(s2n "cd", DStr (s2n "CD"))] |}.
+Definition ex_mid : cdef :=
+  {| c_tpl := [TText (s2n "(");
+               TComp (s2n "leaf") [] false
+                 [TFill (EStr (s2n "s")) (Some (s2n "sd")) None
+                    [TText (s2n "fill("); TOut (EFilled (s2n "u"));
+                     TSlot (s2n "t") true false [(s2n "k", EDot (s2n "sd") (s2n "k"))]
+                       [TText (s2n "t-default["); TSlot (s2n "u") false false [] [TText (s2n "u-default")]; TText (s2n "]")];
+                     TText (s2n ")")]];
+               TComp (s2n "leaf") [] false [TText (s2n "implicit:"); TSlot (s2n "u") false true [] []];
+               TText (s2n ")")];
+     c_data := [] |}.
+Definition ex_pass (fills : list tpl) : prog :=
+  {| p_lib := [(s2n "mid", ex_mid); (s2n "leaf", ex_leaf)];
+     p_page := [TComp (s2n "mid") [] false fills]; p_ctx := [(s2n "p", VStr (s2n "V"))]; p_mode := Isolated |}.
+Definition ex_pass_f1 : list tpl :=
+  [TFill (EStr (s2n "default")) (Some (s2n "x")) None [TText (s2n "PAGE-T:"); TOut (EDot (s2n "x") (s2n "k")); TOut (EVar (s2n "p"))];
+   TFill (EStr (s2n "u")) None None [TText (s2n "PAGE-U")]].
+Definition ex_pass_f2 : list tpl := [TFill (EStr (s2n "u")) None None [TText (s2n "U2")]].
+Example passthrough_refinement_premise_satisfiable :
+  wf_prog_pass (ex_pass ex_pass_f1) = true /\ wf_prog (ex_pass ex_pass_f1) = false /\
+  mout_of (mrender_prog 30 (ex_pass ex_pass_f1)) = MOk (s2n "([fill(TruePAGE-T:CDV)][implicit:PAGE-U])") /\
+  wf_prog_pass (ex_pass ex_pass_f2) = true /\
+  mout_of (mrender_prog 30 (ex_pass ex_pass_f2)) = MOk (s2n "([fill(Truet-default[U2])][implicit:U2])") /\
+  wf_prog_pass (ex_pass []) = true /\ mout_of (mrender_prog 30 (ex_pass [])) = MErr ETemplateSyntax.
+Proof. vm_compute. repeat split; reflexivity. Qed.
 
 (* provide / inject: fill content injects the provider around the SLOT (INNER) before the one around the tag (PAGE); a
    provide written between the component tag and the fill does not reach the fill content (NOPB); after the inner
